@@ -612,7 +612,7 @@ func c12SessionStrings(r *vc.Run) {
 			}
 			ctx := common.AppendBigIntToBytesSlice(ssidOf(ec, keys), big.NewInt(int64(j)))
 			if !pf.Verify(ctx, paiN[j]) {
-				r.Violate("session-string-not-as-specified|ecdsa_keygen|"+cn, fmt.Sprintf("the modulus proof of party %d does not verify under the session string made of the run's own curve (%s), the committee, round 1 and nonce 0: the parties derived their session string from something else", j, cn), desc)
+				r.Violate("tie|session-string-not-as-specified|ecdsa_keygen|"+cn, fmt.Sprintf("the modulus proof of party %d does not verify under the session string made of the run's own curve (%s), the committee, round 1 and nonce 0: the parties derived their session string from something else", j, cn), desc)
 			}
 			ctx2 := common.AppendBigIntToBytesSlice(ssidOf(other, keys), big.NewInt(int64(j)))
 			if pf.Verify(ctx2, paiN[j]) {
